@@ -367,6 +367,11 @@ func TestC08Repeat(t *testing.T) {
 	for _, miss := range []string{"pad", "dat", "mix", "lef", "ma", "mi", "roun", "to", "Date", "trimm", "lowerr", "f", "ff"} {
 		progs = append(progs, miss+"(s, '0', 5)", "[1, "+miss+"(1)]", "m."+miss+"(1)")
 	}
+	// literals and data values that are the whole result (handed back by reference): long coefficients with trailing
+	// zeros, exponents, strings, through ?:, ||, ??, unary +, a comma, a local
+	for _, lit := range []string{"100000000000000000000", "12345678901234567890.500", "1e25", "340282366920938463463374607431768211456000", "0.10000000000000000000", "'text'", "dec", "u64", "f64", "t"} {
+		progs = append(progs, lit, "i > 100 ? i : "+lit, "n || "+lit, "n ?? "+lit, "+"+lit, "1, "+lit, "$v = "+lit+", $v", "["+lit+", "+lit+"]")
+	}
 	for _, a := range []string{"m", "mi", "ms", "mik", "st", "arr", "n"} {
 		// map-typed parameter: a map with several unconvertible entries
 		progs = append(progs, "fnM("+a+")", "[fnM("+a+") ?? 1, fnM("+a+")]")
